@@ -241,7 +241,7 @@ func TestC15(t *testing.T) {
 		"than 16 bytes or a label reference; distinct = hash(case).",
 		func(r *rig.Run) {
 			ev := r.Ev
-			r.Rapid("rapid", rig.Pick(5000, 30000), func(t *rapid.T) {
+			r.Rapid("rapid", rig.Pick(25000, 100000), func(t *rapid.T) {
 				c := c15Case{Tight: rapid.IntRange(0, 3).Draw(t, "tight") == 0, Finalize: rapid.Bool().Draw(t, "finalize")}
 				c.Ops = asmcat.GenHistory(t, asmcat.GenOpts{MaxOps: rig.Pick(30, 80), Labels: true, Data: true, Comments: true, LongComments: true, SetBase: true, Assume: true})
 				r.Check(t, "rapid", c, func() error { return c15Check(c) })
